@@ -1296,24 +1296,70 @@ def rule_cached_position_reset(db: ProgramDB) -> List[Instance]:
     resets = [m for c in [se] + se.all_subclasses() for n, m in c.methods.items() if n == "_reset_only_my_cache_" and m.cls is c]
     root_reset = se.methods.get("_reset_only_my_cache_")
     for name, impls in sorted(names.items()):
-        cleared = False
+        covered: Set[str] = set()       # classes whose implementation of `name` the reset clears the memo of
+
+        def cover(receiver: ast.AST) -> None:
+            """`type(self).name` / `self.name` dispatch on the node being reset: whatever class it is, its own implementation
+            is cleared.  `SomeClass.name` clears the memo of the one implementation SomeClass resolves to."""
+            r = unparse(receiver)
+            if r in ("type(self)", "self.__class__", "self"):
+                covered.update(m.cls.name for m in impls)
+            elif isinstance(receiver, ast.Name) and db.class_by_name.get(receiver.id):
+                res = db.cls(receiver.id).methods.get(name)
+                if res is not None:
+                    covered.add(res.cls.name)
+        clearing_calls: List[ast.Call] = []
+        handle_names: Set[str] = set()
         for r in ([root_reset] if root_reset else []):
             handles = set()
             for x in own_nodes(r.node):
                 if isinstance(x, ast.Assign) and len(x.targets) == 1 and isinstance(x.targets[0], ast.Name) and isinstance(x.value, ast.Call) \
-                        and dotted(x.value.func) == "getattr" and name in unparse(x.value) and "cache_clear" in unparse(x.value):
-                    handles.add(x.targets[0].id)
+                        and dotted(x.value.func) == "getattr" and len(x.value.args) >= 2 and isinstance(x.value.args[1], ast.Constant) \
+                        and x.value.args[1].value == "cache_clear" and isinstance(x.value.args[0], ast.Attribute) and x.value.args[0].attr == name:
+                    handles.add((x.targets[0].id, x.value.args[0].value))
             for x in own_nodes(r.node):
                 if isinstance(x, ast.Call):
-                    if isinstance(x.func, ast.Attribute) and x.func.attr == "cache_clear" and name in unparse(x.func.value):
-                        cleared = True
-                    if isinstance(x.func, ast.Name) and x.func.id in handles:
-                        cleared = True
+                    if isinstance(x.func, ast.Attribute) and x.func.attr == "cache_clear" and isinstance(x.func.value, ast.Attribute) \
+                            and x.func.value.attr == name:
+                        cover(x.func.value.value)
+                        clearing_calls.append(x)
+                    if isinstance(x.func, ast.Name):
+                        for h, recv in handles:
+                            if h == x.func.id:
+                                cover(recv)
+                                clearing_calls.append(x)
+                                handle_names.add(h)
+        missing = sorted({m.cls.name for m in impls} - covered)
+        cleared = not missing
+        if cleared and root_reset is not None:
+            # the clear is on every path through the reset (each node clears for its own class; a clear at the root of the reset only
+            # clears the memo of the root's class).  The one guard accepted is `handle is not None` of the getattr default.
+            cfg = CFG(root_reset)
+            ids = {id(c) for c in clearing_calls}
+
+            def clears(nd):
+                return nd.ast is not None and nd.kind == "stmt" and any(id(c) in ids for c in ast.walk(nd.ast))
+
+            def edge_ok(e):
+                src = cfg.nodes[e.src]
+                if src.kind == "test" and e.label == "F" and isinstance(getattr(src.stmt, "test", None), ast.Compare):
+                    t = src.stmt.test
+                    if isinstance(t.left, ast.Name) and t.left.id in handle_names and isinstance(t.ops[0], ast.IsNot):
+                        return False
+                return True
+            p = cfg.find_path(cfg.entry, lambda nd: nd.id == cfg.exit, kinds=("n",), blocked=clears, edge_ok=edge_ok)
+            if p is not None:
+                out.append(inst("CACHED-POSITION-RESET", VIOLATION, root_reset, f"{name}[memo dropped by the reset]",
+                                f"the reset drops the memo of `{name}` on some paths only ({cfg.describe_path(p)}): each class has a memo of its "
+                                f"own, so every node that is reset has to clear the one of its class", line=root_reset.lineno))
+                continue
         out.append(inst("CACHED-POSITION-RESET", HOLDS if cleared else VIOLATION, impls[0], f"{name}[memo dropped by the reset]",
-                        f"{len(impls)} memoised implementation(s) read self._parent_; SymbolicExpression._reset_only_my_cache_ drops the memo" if cleared else
-                        f"{len(impls)} implementation(s) of `{name}` are memoised with lru_cache and read self._parent_, and no reset drops the memo: "
+                        f"{len(impls)} memoised implementation(s) read self._parent_; SymbolicExpression._reset_only_my_cache_ drops the memo of the "
+                        f"implementation of the node being reset" if cleared else
+                        f"`{name}` is memoised with lru_cache and reads self._parent_ in {len(impls)} implementation(s), and the reset does not drop the "
+                        f"memo of the implementation in {', '.join(missing)} (each override has a memo of its own): "
                         f"the duplicate-suppression keys computed for the tree of the first evaluation are reused after the node got another "
-                        f"parent (a sub-query evaluated alone and then nested) or the tree another branch, and rows are lost"))
+                        f"parent (a sub-query evaluated alone and then nested) or the tree another branch, and rows are lost or duplicated"))
     return out
 
 
